@@ -15,14 +15,15 @@ out = ["# Sensitivity of the checks: seeded regressions", "",
        "Two kinds of deliberate breakage were applied to scratch copies of `/repo` (never to `/repo` itself):", "",
        "* **seeded/** - %d regressions written by independent sub-agents: 20 agents in a first round (two regressions per property)," % n,
        "  20 more in a second round (two further regressions per property, asked for rarer triggers and told only the one-line titles of",
-       "  the first round's regressions). Each agent saw only the text of one property and its own git worktree of `/repo`; nothing from",
+       "  the first round's regressions), 10 more in a third round (properties C01 C03 C04 C06 C07 C11 C12 C15 C17 C20; asked for regressions",
+       "  made of two cooperating changes or depending on state left by earlier calls). Each agent saw only the text of one property and its own git worktree of `/repo`; nothing from",
        "  `/verif`. Every regression compiles, passes the repository's 48 tests and comes with a demonstration that passes without and",
        "  fails with the change; all three facts were re-confirmed with `tools/verify_seeded.sh` before the regression was kept.",
        "* **own mutants** - quick plausibility mutants from the lists in DESIGN.md section 7 (not kept as files; listed below).", "",
        "`tools/mutant.sh <patch> <ID>` runs the quick tier of a check against a patched scratch copy (`VERIF_REPO`); `tools/record_seeded.py`",
        "folds the logs (`tools/logs/`) into `seeded/*/meta.json`, from which this file is generated (`tools/gen_sensitivity.py`).", "",
        "## Seeded regressions (sub-agents)", "",
-       "m1, m2: first round; m3, m4: second round (rarer triggers).", "",
+       "m1, m2: first round; m3, m4: second round (rarer triggers); m5, m6: third round (cooperating changes, state / order dependence).", "",
        "| id | what it breaks (one line) | checks as they were when it arrived | after strengthening | cases until the verdict |",
        "|----|---------------------------|-------------------------------------|---------------------|-------------------------|"]
 for d, title, meta in rows:
@@ -66,7 +67,17 @@ out += ["", "%d of the %d were caught by the checks as they were when the regres
         "| C19-m3 | suffix taken from the first dot: needs a configuration name with a dot | configuration name `vf.ex` in 15% of all trees |",
         "| C19-m4 | `--comment` cut to one character | `--comment '#;'` with `#` and `;` comment lines in the files |",
         "| C20-m3 | JOIN reset line with a trailing comment: double free | new C20 scenario: duplicate-rich files read with the parsing options, queried, merged, written, freed |",
-        "| C20-m4 | leak when two different comment characters follow a value | same scenario, trailing comments may contain further comment characters |", "",
+        "| C20-m4 | leak when two different comment characters follow a value | same scenario, trailing comments may contain further comment characters |",
+        "| C01-m6 | `econf_set_conf_dirs({NULL})` no longer resets: the failure needs the previous case's list | the failure was found but did not replay alone; the engine now keeps the last 16 cases of the process, replays `found-history.case` (earlier cases + case) in a fresh process and minimises that history (`prelude=` lines) |",
+        "| C03-m5 | base file with a key-less `[B]` header hides the override's keys of B | C03's parsed inputs get key-less headers from the section pool |",
+        "| C03-m6 | override obtained through econf_readConfig has its values moved out | C03 inputs also come from econf_readConfig and from a previous merge |",
+        "| C06-m5 | callback skipped while a (satisfied) permission requirement is in force | C06 runs 25% of its cases with restrictions every file satisfies (permission bits, own uid, own gid) |",
+        "| C06-m6 | non-regular directory entries are read unchecked | C06 scenario with a named pipe as drop-in: a forked writer observes whether the library opens it; opening requires a prior accepted callback |",
+        "| C07-m5 | writer cuts stored comments in place: only the second write is wrong (C10 caught it) | C07 writes 30% of its objects twice and judges the second file |",
+        "| C12-m5 | caller's options object keeps a stale copy of the process-wide list after a failed read | C12 / C01: the options object first goes through a failing read under another list |",
+        "| C15-m6 | repeated PARSING_DIRS accumulates | every candidate directory has drop-ins with names and keys of its own; nothing of a non-selected directory may be visible |",
+        "| C17-m5 | layered read keeps the main file's path when the later file has no entries | C17 reads its file once more through econf_readDirs with an entry-less / one-key drop-in: path must be empty |",
+        "| C17-m6 | directory of a relative name cached across chdir | C17 reads the same relative name from two working directories |", "",
         "Own mutants exposed two more gaps (both closed): a shallow copy of `comment_before_key` in `cpy_file_entry` (C03 now takes a full",
         "extended dump of the merge result after both inputs were freed, parsed inputs carry comments) and `econftool` printing at most two",
         "value lines (C19's multi-line values now have 2-4 lines).", "",
